@@ -851,7 +851,10 @@ class LogicalLinkController(object):
                 # look up and insert in one step: terminate() holds the lock
                 # while it removes the service access points, a connection
                 # inserted after that would never be shut down
-                sap = self.sap[client.addr]
+                # terminate() unbinds a socket before it closes it, the
+                # connection then got no address from the listening socket
+                addr = client.addr
+                sap = self.sap[addr] if addr is not None else None
                 if sap is not None:
                     sap.insert_socket(client)
             if sap is None:
